@@ -1,4 +1,5 @@
 import ImathVerif.Lemmas.RayBoxLemmas
+import ImathVerif.Lemmas.RayBoxPoints
 /-!
 # C14 — ray-box and line-box intersection are geometrically exact
 
@@ -33,6 +34,16 @@ a face value; per axis
   (box reaching `T`, unit direction), (b) both functions turning a miss into a
   hit when all direction components fail the guard, (c) the `|dir| > 1`
   disjunct alone not being enough when `|face - pos| > T`.
+
+* where the reported points lie WITHOUT guard hypotheses: `intersects_ip_in_box_always`
+  (`ip` is in the box and on a face whenever the result is `true`), `findEntryAndExitPoints_points_in_box`
+  (one axis with a non-zero component and a strict guard suffices, the other two arbitrary);
+* and where the clause "every reported point lies in the box" is FALSE:
+  `findEntryAndExitPoints_unwritten` (every axis fails its guard — e.g. all components zero or
+  denormal — and the origin is in the box: `true` is returned and `entry`/`exit` are never assigned),
+  with the ℚ witness `findEntryAndExitPoints_unwritten_witness`;
+* `*_false_hit_only_if`: a `true` answer that is geometrically wrong needs a non-zero
+  component whose guard as written fails.
 
 `strictGuard_of_codeGuard` (Lemmas): `CodeGuard` and `|max-pos| ≤ T`, `|min-pos| ≤ T`
 imply `StrictGuard`; so for floats whose differences do not overflow the
@@ -221,6 +232,100 @@ theorem findEntryAndExitPoints_points (T : α) (r : Line3 α) (b : Box3 α) (e x
   · intro h
     exact (feEff3_iff_mem hcg t).mp ((inv t).mp h).2
 
+/-! ### Reported points without guard hypotheses -/
+
+/-- **`ip` is always in the box and on a face** when `intersects` returns `true`
+from an origin outside the box — NO hypothesis on the direction or the guards:
+every assignment of `ip` has the shape `(face, clamp …, clamp …)`, and an
+assignment must have happened because the axis on which the origin is outside
+pushes `tFrontMax` from `-1` to a value `≥ 0`.  (Origin inside: `intersects_ip_inside`.) -/
+theorem intersects_ip_in_box_always (T : α) (r : Line3 α) (b : Box3 α) (ip : V3 α)
+    (hne : ¬ b.Empty) (hT : 0 ≤ T) (hout : ¬ mem r.pos b)
+    (hres : (intersects T b r ip).1 = true) :
+    mem (intersects T b r ip).2 b ∧ onSurface (intersects T b r ip).2 b := by
+  rw [is_eq_run hne hout] at hres ⊢
+  exact is_run_pts hne hT _ rfl hout hres
+
+/-- `entry` and `exit` are in the box and on a face as soon as ONE axis has a
+non-zero direction component with a strict guard (no quotient of that axis reaches
+`T`); the other two axes are arbitrary (zero, denormal, guard failing, …). -/
+theorem findEntryAndExitPoints_points_in_box (T : α) (r : Line3 α) (b : Box3 α) (e x : V3 α)
+    (hne : ¬ b.Empty)
+    (hax : (r.dir.x ≠ 0 ∧ StrictGuard T r.pos.x r.dir.x b.min.x b.max.x) ∨
+           (r.dir.y ≠ 0 ∧ StrictGuard T r.pos.y r.dir.y b.min.y b.max.y) ∨
+           (r.dir.z ≠ 0 ∧ StrictGuard T r.pos.z r.dir.z b.min.z b.max.z))
+    (hres : (findEntryAndExitPoints T r b e x).1 = true) :
+    mem (findEntryAndExitPoints T r b e x).2.1 b ∧ mem (findEntryAndExitPoints T r b e x).2.2 b ∧
+    onSurface (findEntryAndExitPoints T r b e x).2.1 b ∧ onSurface (findEntryAndExitPoints T r b e x).2.2 b := by
+  rw [fe_eq_run hne] at hres ⊢
+  obtain ⟨F, B, hFB, inv, hE, hX⟩ := (fe_run_master (T := T) hne _ rfl rfl).2 hres
+  have eF := ((inv F).mp ⟨le_refl _, hFB⟩).2
+  have eB := ((inv B).mp ⟨hFB, le_refl _⟩).2
+  have win : (-T < F ∧ F < T) ∧ (-T < B ∧ B < T) := by
+    rcases hax with ⟨hd, hg⟩ | ⟨hd, hg⟩ | ⟨hd, hg⟩
+    · exact ⟨strictGuard_window hd hg (eF.1.1 (Or.inr hg)), strictGuard_window hd hg (eB.1.1 (Or.inr hg))⟩
+    · exact ⟨strictGuard_window hd hg (eF.2.1.1 (Or.inr hg)), strictGuard_window hd hg (eB.2.1.1 (Or.inr hg))⟩
+    · exact ⟨strictGuard_window hd hg (eF.2.2.1 (Or.inr hg)), strictGuard_window hd hg (eB.2.2.1 (Or.inr hg))⟩
+  obtain ⟨hqE, hsE⟩ := hE win.1.1
+  obtain ⟨hqX, hsX⟩ := hX win.2.2
+  exact ⟨by rw [hqE]; exact clampPt_mem hne F, by rw [hqX]; exact clampPt_mem hne B, hsE, hsX⟩
+
+/-- **The clause "every reported point lies in the box" is false for
+`findEntryAndExitPoints`.**  If on every axis the guard as written fails (a zero
+component always fails it; so does a denormal one) and the origin is in the box, all
+three blocks fall through: the function returns `true` and `entry`, `exit` keep
+whatever the caller's variables held (uninitialised memory in C++). -/
+theorem findEntryAndExitPoints_unwritten (T : α) (r : Line3 α) (b : Box3 α) (e x : V3 α)
+    (hne : ¬ b.Empty) (hT : 0 ≤ T)
+    (hx : ¬ CodeGuard T r.pos.x r.dir.x b.min.x b.max.x)
+    (hy : ¬ CodeGuard T r.pos.y r.dir.y b.min.y b.max.y)
+    (hz : ¬ CodeGuard T r.pos.z r.dir.z b.min.z b.max.z)
+    (hin : mem r.pos b) : findEntryAndExitPoints T r b e x = (true, e, x) :=
+  fe_unwritten hne hT hx hy hz hin e x
+
+/-- The zero direction in particular (the line degenerates to the point `pos`). -/
+theorem findEntryAndExitPoints_unwritten_zero_dir (T : α) (r : Line3 α) (b : Box3 α) (e x : V3 α)
+    (hne : ¬ b.Empty) (hT : 0 ≤ T) (h0 : r.dir.x = 0 ∧ r.dir.y = 0 ∧ r.dir.z = 0)
+    (hin : mem r.pos b) : findEntryAndExitPoints T r b e x = (true, e, x) := by
+  refine fe_unwritten hne hT ?_ ?_ ?_ hin e x
+  · rw [h0.1]; exact not_codeGuard_zero
+  · rw [h0.2.1]; exact not_codeGuard_zero
+  · rw [h0.2.2]; exact not_codeGuard_zero
+
+/-! ### A geometrically wrong `true` needs a failing guard -/
+
+theorem intersects_false_hit_only_if (T : α) (r : Line3 α) (b : Box3 α) (ip : V3 α)
+    (hne : ¬ b.Empty) (hT : 0 ≤ T) (hres : (intersects T b r ip).1 = true) :
+    (∃ t, 0 ≤ t ∧ mem (pointAt r t) b) ∨
+    (r.dir.x ≠ 0 ∧ ¬ CodeGuard T r.pos.x r.dir.x b.min.x b.max.x) ∨
+    (r.dir.y ≠ 0 ∧ ¬ CodeGuard T r.pos.y r.dir.y b.min.y b.max.y) ∨
+    (r.dir.z ≠ 0 ∧ ¬ CodeGuard T r.pos.z r.dir.z b.min.z b.max.z) := by
+  by_cases hg : CodeGuardsOK T r b
+  · obtain ⟨t, ht, hm⟩ := (intersects_iff_window T r b ip hne hT hg).mp hres
+    exact Or.inl ⟨t, ht.1, hm⟩
+  · right
+    unfold CodeGuardsOK at hg
+    by_contra hc
+    apply hg
+    simp only [not_or, not_and_or, not_not] at hc
+    exact ⟨hc.1, hc.2.1, hc.2.2⟩
+
+theorem findEntryAndExitPoints_false_hit_only_if (T : α) (r : Line3 α) (b : Box3 α) (e x : V3 α)
+    (hne : ¬ b.Empty) (hres : (findEntryAndExitPoints T r b e x).1 = true) :
+    (∃ t, mem (pointAt r t) b) ∨
+    (r.dir.x ≠ 0 ∧ ¬ CodeGuard T r.pos.x r.dir.x b.min.x b.max.x) ∨
+    (r.dir.y ≠ 0 ∧ ¬ CodeGuard T r.pos.y r.dir.y b.min.y b.max.y) ∨
+    (r.dir.z ≠ 0 ∧ ¬ CodeGuard T r.pos.z r.dir.z b.min.z b.max.z) := by
+  by_cases hg : CodeGuardsOK T r b
+  · obtain ⟨t, _, hm⟩ := (findEntryAndExitPoints_iff_window T r b e x hne hg).mp hres
+    exact Or.inl ⟨t, hm⟩
+  · right
+    unfold CodeGuardsOK at hg
+    by_contra hc
+    apply hg
+    simp only [not_or, not_and_or, not_not] at hc
+    exact ⟨hc.1, hc.2.1, hc.2.2⟩
+
 /-! ### Non-vacuity of the hypotheses (concrete instances over ℚ) -/
 
 section NonVacuity
@@ -246,6 +351,15 @@ example : (⟨⟨1, 0, 0⟩, ⟨0, 1, 1⟩⟩ : Box3 ℚ).Empty := by norm_num [
 /-- a hit within the window for `intersects_never_misses`, on a guard-failing direction -/
 example : ∃ t : ℚ, 0 ≤ t ∧ t ≤ 4 ∧ mem (pointAt (⟨⟨0, 0, 0⟩, ⟨1/2, 0, 0⟩⟩ : Line3 ℚ) t) ⟨⟨2, -1, -1⟩, ⟨3, 1, 1⟩⟩ :=
   ⟨4, by norm_num [mem, pointAt]⟩
+/-- `intersects_ip_in_box_always` on a direction ALL of whose components fail the guard (`T = 4`):
+the result is `true` (a false hit, cf. witness (c)) and `ip` is a corner-region point of the box -/
+example : (intersects (4 : ℚ) ⟨⟨1, 5, -1⟩, ⟨2, 6, 1⟩⟩ ⟨⟨0, 0, 0⟩, ⟨1/8, 1/8, 0⟩⟩ z3) = (true, ⟨1, 5, 0⟩) := by decide +kernel
+example : ¬ mem (⟨0, 0, 0⟩ : V3 ℚ) ⟨⟨1, 5, -1⟩, ⟨2, 6, 1⟩⟩ := by norm_num [mem]
+/-- `findEntryAndExitPoints_points_in_box`: X strict and non-zero, Y failing its guard with the origin inside the Y slab -/
+example : ((1 : ℚ) ≠ 0 ∧ StrictGuard (4 : ℚ) (-1) 1 0 1) := by norm_num [StrictGuard]
+example : ¬ CodeGuard (4 : ℚ) (1/2) (1/100) 0 1 := by norm_num [CodeGuard]
+example : (findEntryAndExitPoints (4 : ℚ) ⟨⟨-1, 1/2, 1/2⟩, ⟨1, 1/100, 0⟩⟩ exBox z3 z3) =
+    (true, ⟨0, 51/100, 1/2⟩, ⟨1, 13/25, 1/2⟩) := by decide +kernel
 end NonVacuity
 
 /-! ### The hypotheses are necessary: concrete witnesses over ℚ (the model evaluated by the kernel)
@@ -299,6 +413,26 @@ theorem findEntryAndExitPoints_overflow_witness :
     (intersects (4 : ℚ) ⟨⟨6, -1, -1⟩, ⟨6, 1, 1⟩⟩ ⟨⟨-6, 0, 0⟩, ⟨2, 0, 0⟩⟩ z3).1 = false ∧
     mem (pointAt (⟨⟨-6, 0, 0⟩, ⟨2, 0, 0⟩⟩ : Line3 ℚ) 6) ⟨⟨6, -1, -1⟩, ⟨6, 1, 1⟩⟩ :=
   ⟨by norm_num [CodeGuardsOK, CodeGuard], by decide +kernel, by decide +kernel, by norm_num [mem, pointAt]⟩
+
+/-- (e) "Every reported point lies in the box" fails: unit cube, origin at its centre,
+direction `(1/100, 1/100, 1/100)`, `T = 4`: every axis fails its guard
+(`|face - pos| = 1/2 ≥ T·dir = 1/25`), the function answers `true` (correctly: the
+line meets the box) and returns the caller's `entry`/`exit` unchanged, whatever
+they were — e.g. the point `(1001, 1002, 1003)`, which is not in the box.  Replayed on
+the real code with `dir = (denorm_min)³` (or `0³`) by the guard sweep
+(`guard-sweep:reported-points:…entry-unwritten…`). -/
+theorem findEntryAndExitPoints_unwritten_witness :
+    (∀ e x : V3 ℚ, findEntryAndExitPoints (4 : ℚ) ⟨⟨1/2, 1/2, 1/2⟩, ⟨1/100, 1/100, 1/100⟩⟩ exBox e x = (true, e, x)) ∧
+    (∃ t : ℚ, mem (pointAt (⟨⟨1/2, 1/2, 1/2⟩, ⟨1/100, 1/100, 1/100⟩⟩ : Line3 ℚ) t) exBox) ∧
+    ¬ mem (findEntryAndExitPoints (4 : ℚ) ⟨⟨1/2, 1/2, 1/2⟩, ⟨1/100, 1/100, 1/100⟩⟩ exBox ⟨1001, 1002, 1003⟩ z3).2.1 exBox := by
+  have hu : ∀ e x : V3 ℚ,
+      findEntryAndExitPoints (4 : ℚ) ⟨⟨1/2, 1/2, 1/2⟩, ⟨1/100, 1/100, 1/100⟩⟩ exBox e x = (true, e, x) := fun e x =>
+    findEntryAndExitPoints_unwritten 4 _ exBox e x (by norm_num [Box3.Empty, exBox]) (by norm_num)
+      (by norm_num [CodeGuard, exBox]) (by norm_num [CodeGuard, exBox]) (by norm_num [CodeGuard, exBox])
+      (by norm_num [mem, exBox])
+  refine ⟨hu, ⟨0, by norm_num [mem, pointAt, exBox]⟩, ?_⟩
+  rw [hu]
+  norm_num [mem, exBox]
 
 end Witnesses
 
